@@ -130,6 +130,18 @@ class Gen:
             return ('s', int(s[1:]))
         return ('J', s[1:])
 
+    def op_corrupt_burst(self):
+        """several blocks of one file, the last (possibly partial) one included"""
+        st = self.recorded()
+        cands = [(int(d), n, len(f["b"])) for d in self.rec.D for n, f in st["fs"][d].items() if len(f["b"]) >= 2]
+        if not cands:
+            return None
+        d, n, nb = self.rng.choice(cands)
+        idx = sorted(set([nb - 1] + self.rng.sample(range(nb), min(nb, self.rng.randint(1, 2)))))
+        for i in idx:
+            self.a.corrupt_block(d, n, i, self.rng.choice(["flip", "byte", "whole"]))
+        return "corrupt %d/%s blocks %s" % (d, n, idx)
+
     def op_corrupt_parity(self):
         st = self.recorded()
         l = self.rng.randrange(self.conf.np)
@@ -179,7 +191,8 @@ class Gen:
             fl = ["-a"] if self.rng.random() < 0.3 else []
             if self.ranges and self.rng.random() < 0.15:
                 fl += self._range()
-            return "check %s -> %s" % (fl, self.rec.check(*fl)[1]["exit"])
+            rules = ["pread,/p,0,shortread,%d" % self.rng.choice([1, 700, 1023])] if self.profile == "detect" and self.rng.random() < 0.3 else None
+            return "check %s%s -> %s" % (fl, " short reads" if rules else "", self.rec.check(*fl, rules=rules)[1]["exit"])
         if name == "fix":
             fl = self._range() if (self.ranges and self.rng.random() < 0.25) else []
             res = "fix %s -> %s" % (fl, self.rec.fix(*fl)[1]["exit"])
@@ -198,7 +211,8 @@ class Gen:
             return res
         if name == "scrub":
             plan = self.rng.choice(["full", "full", "new", "bad"])
-            return "scrub %s -> %s" % (plan, self.rec.scrub(plan)[1]["exit"])
+            rules = ["pread,/p,0,shortread,%d" % self.rng.choice([1, 700, 1023])] if self.profile == "detect" and self.rng.random() < 0.3 else None
+            return "scrub %s%s -> %s" % (plan, " short reads" if rules else "", self.rec.scrub(plan, rules=rules)[1]["exit"])
         if name == "diff":
             return "diff -> %s" % self.rec.diff()[1]["exit"]
 
@@ -210,8 +224,8 @@ class Gen:
                    ("lose_parity", 1), ("sync", 26), ("check", 8), ("fix", 14), ("scrub", 4), ("diff", 2)],
         "copy": [("add", 14), ("copy", 16), ("touch", 3), ("delete", 8), ("corrupt", 3), ("lose_disk", 2),
                  ("sync", 28), ("check", 6), ("fix", 8), ("diff", 4)],
-        "detect": [("add", 8), ("delete", 3), ("corrupt", 22), ("corrupt_parity", 16), ("sync", 14), ("check", 18),
-                   ("scrub", 14), ("fix", 6)],
+        "detect": [("add", 8), ("delete", 3), ("corrupt", 14), ("corrupt_burst", 10), ("corrupt_parity", 14), ("sync", 14),
+                   ("check", 18), ("scrub", 14), ("fix", 6)],
         "damage": [("add", 10), ("delete", 6), ("corrupt", 14), ("corrupt_parity", 8), ("lose_disk", 6), ("lose_parity", 5),
                    ("sync", 18), ("check", 10), ("fix", 16), ("scrub", 8)],
     }
@@ -300,6 +314,92 @@ class Gen:
             r, out = self.rec.check()
             self.steps.append("check -> %s" % out["exit"])
 
+    # ---- histories of interrupted / partial syncs followed by damage and fix (C05, C06): a small grammar, sampled
+    def grammar_history(self):
+        rng, a, rec = self.rng, self.a, self.rec
+        nd = self.conf.nd
+
+        def note(desc, damage=False):
+            rec.env(desc, damage=damage); self.steps.append(desc)
+
+        def wr(d, n, nblk=None):
+            vals = self.content(nblk if nblk is not None else rng.randint(1, 3))
+            a.write_file(d, n, vals, mtime=self.stamp())
+            return "write %d/%s %r" % (d, n, vals)
+
+        def do_sync(kind):
+            a.clock += 10
+            st = self.recorded()
+            bm = max(len(st["info"]), 1)
+            if kind == "normal":
+                r, o = rec.sync("-E"); self.steps.append("sync -E -> %s" % o["exit"])
+            elif kind == "killafter":
+                r, o = rec.sync("-E", "--test-kill-after-sync"); self.steps.append("sync killed after parity -> %s" % o["exit"])
+            elif kind == "presavekill":
+                rec.sync_killed(["rename,c%d/content,1,killa" % (self.conf.copies - 1)], "-E")
+                self.steps.append("sync killed after the pre-save")
+            elif kind == "range":
+                s0 = rng.randrange(0, bm + 1); c = rng.randint(1, bm)
+                r, o = rec.sync("-E", "-S", str(s0), "-B", str(c)); self.steps.append("sync -S %d -B %d -> %s" % (s0, c, o["exit"]))
+            elif kind == "midrm":
+                cands = [(d, f) for d in range(nd) for f in self.files(d)]
+                d, f = rng.choice(cands)
+                data = open(a.path(d, f), "rb").read(); stt = os.lstat(a.path(d, f))
+                r, o = rec.sync("-E", midrun="rm -f '%s'" % a.path(d, f))
+                self.steps.append("sync with %d/%s vanishing after the scan -> %s" % (d, f, o["exit"]))
+                if rng.random() < 0.7:
+                    with open(a.path(d, f), "wb") as fh:
+                        fh.write(data)
+                    os.utime(a.path(d, f), ns=(stt.st_mtime_ns, stt.st_mtime_ns))
+                    note("restore %d/%s with its time stamp" % (d, f))
+            elif kind == "autosavekill":
+                rec.sync_killed(["pwrite,/p,0,delay,150", "rename,c%d/content,2,killa" % (self.conf.copies - 1)], "-E",
+                                "--test-io-cache", "3", "--test-force-autosave-at", str(rng.randrange(0, bm + 1)),
+                                autosave_at=None)
+                self.steps.append("sync with forced autosave, killed after it")
+
+        def edit():
+            k = rng.choice(["delete", "replace", "add", "add_other", "modify", "resize", "none"])
+            d = rng.randrange(nd)
+            fl = [f for f in self.files(d) if f != "zz"]
+            if k == "delete" and fl:
+                n = rng.choice(fl); a.remove(d, n); note("delete %d/%s" % (d, n))
+            elif k == "replace" and fl:
+                n = rng.choice(fl); a.remove(d, n); note("delete %d/%s, then %s" % (d, n, wr(d, rng.choice(self.names))))
+            elif k in ("add", "add_other"):
+                note(wr(d, rng.choice(self.names)))
+            elif k == "modify" and fl:
+                n = rng.choice(fl)
+                nb = (os.path.getsize(a.path(d, n)) + arr.BS - 1) // arr.BS
+                note(wr(d, n, nb))
+            elif k == "resize" and fl:
+                note(wr(d, rng.choice(fl)))
+
+        # base array
+        for d in range(nd):
+            note(wr(d, "A", rng.randint(1, 3)))
+        do_sync("normal")
+        for _ in range(rng.randint(1, 3)):
+            for _ in range(rng.randint(1, 2)):
+                edit()
+            do_sync(rng.choice(["killafter", "presavekill", "range", "range", "midrm", "normal"]))
+        # damage
+        st = self.recorded()
+        recfiles = [(int(d), n) for d in rec.D for n in st["cf"][d] if n in st["fs"][d]]
+        k = rng.choice(["file", "file", "two", "disk", "corrupt"])
+        if k == "disk" or not recfiles:
+            d = rng.randrange(nd); a.lose_disk(d); note("lose disk %d" % d, damage=True)
+        elif k == "corrupt":
+            desc = self.op_corrupt()
+            if desc:
+                note(desc, damage=True)
+        else:
+            for d, n in rng.sample(recfiles, min(len(recfiles), 1 if k == "file" else 2)):
+                a.remove(d, n); note("lose %d/%s" % (d, n), damage=True)
+        a.clock += 10
+        r, o = rec.fix(); self.steps.append("fix -> %s" % o["exit"])
+        r, o = rec.check(); self.steps.append("check -> %s" % o["exit"])
+
     def step(self):
         ops = self.WEIGHTS[self.profile]
         tot = sum(w for _, w in ops)
@@ -316,12 +416,15 @@ class Gen:
             desc = getattr(self, "op_" + name)()
             if desc is None:
                 return
-            self.rec.env(desc, damage=name in ("corrupt", "corrupt_parity", "lose_disk", "lose_parity"))
+            self.rec.env(desc, damage=name in ("corrupt", "corrupt_burst", "corrupt_parity", "lose_disk", "lose_parity"))
         self.steps.append(desc)
 
     def run(self, n):
         if self.profile == "c01":
             self.c01_history(rounds=max(1, n // 12))
+            return self.rec
+        if self.profile == "grammar":
+            self.grammar_history()
             return self.rec
         for _ in range(n):
             self.step()
